@@ -8,6 +8,37 @@
 #   list line:  <patch file relative to the list>|<checks, space separated>|<comment>
 set -u
 VERIF_DIR="$(cd "$(dirname "$0")/.." && pwd)"
+# --worktree: apply each patch in a throw-away git worktree of /repo and point
+# the checks at it (VERIF_REPO), so that /repo itself stays untouched (needed
+# while other runs read /repo)
+if [ "${1:-}" = "--worktree" ]; then
+  shift
+  LIST="${1:-$VERIF_DIR/mutants/LIST}"; DIR="$(dirname "$LIST")"
+  export GOFLAGS=-mod=mod GOPROXY=off GOSUMDB=off GOTOOLCHAIN=local
+  pass=0; fail=0
+  while IFS='|' read -r patch checks comment; do
+    [ -z "$patch" ] && continue
+    case "$patch" in \#*) continue;; esac
+    WT="/tmp/selftest-$$"
+    git -C /repo worktree add --detach "$WT" HEAD -q || exit 2
+    if ! git -C "$WT" apply "$DIR/$patch" 2>/dev/null; then echo "SKIP  $patch (does not apply)"; git -C /repo worktree remove --force "$WT"; continue; fi
+    tests="pass"; (cd "$WT" && go build ./... >/dev/null 2>&1 && go test -vet=off -count=1 ./... >/dev/null 2>&1) || tests="FAIL"
+    for c in $checks; do
+      out="$(VERIF_REPO="$WT" "$VERIF_DIR/check" "$c" quick 2>&1)"; rc=$?
+      rep="$(echo "$out" | grep -m1 '^VIOLATION' | sed 's/.*replay=//')"
+      if [ $rc -eq 1 ] && [ -n "$rep" ]; then
+        VERIF_REPO="$WT" "$VERIF_DIR/check" "$c" --replay "$rep" >/dev/null 2>&1; rrc=$?
+        if [ $rrc -eq 1 ]; then echo "CAUGHT $patch by $c (repo tests: $tests; replay reproduces) — $comment"; pass=$((pass+1));
+        else echo "CAUGHT-BUT-REPLAY-rc=$rrc $patch by $c (repo tests: $tests) — $comment"; fail=$((fail+1)); fi
+      else
+        echo "MISSED $patch by $c (exit $rc; repo tests: $tests) — $comment"; fail=$((fail+1))
+      fi
+    done
+    git -C /repo worktree remove --force "$WT"
+  done < "$LIST"
+  echo "selftest: caught=$pass missed-or-unreplayable=$fail"
+  [ $fail -eq 0 ]; exit $?
+fi
 LIST="${1:-$VERIF_DIR/mutants/LIST}"
 DIR="$(dirname "$LIST")"
 export GOFLAGS=-mod=mod GOPROXY=off GOSUMDB=off GOTOOLCHAIN=local
